@@ -418,6 +418,29 @@ def impls_of(fb, fn):
     return _IMPLS[1].get((tr.split('<')[0], meth), [])
 
 
+def concrete_type_args(fb, body, name, depth=0):
+    """the concrete types a type parameter `name` of the generic function `body` is instantiated with at its call sites
+    in the workspace (followed through generic callers)"""
+    out = set()
+    gens = list(getattr(body, 'generics', None) or [])
+    if name not in gens or depth > 4:
+        return out
+    ix = gens.index(name)
+    for cb in fb.bodies():
+        for bb, t, fn in cb.calls():
+            if not fn or body.path not in {mir.callee_name(fn), fn['path']}:
+                continue
+            targs = ((fn.get('resolved') or {}).get('targs')) or fn.get('targs') or []
+            if len(targs) != len(gens):
+                continue
+            tt = cb.crate.types[targs[ix]]
+            if tt.get('k') == 'param':
+                out |= concrete_type_args(fb, cb, tt['s'], depth + 1)
+            else:
+                out.add(tt['s'])
+    return out
+
+
 def callee_bodies(fb, fn):
     """bodies a call site can run: the resolved workspace function / closure, else every workspace impl of the trait method"""
     nm = mir.callee_name(fn)
